@@ -149,4 +149,16 @@ theorem gen_block_reduce_eq_model (coords data : List (List Rat)) (weights : Opt
     | none => simp [pure, Except.pure, groupAgg]
     | some ws => simp [pure, Except.pure, groupAggW]
 
+/-- **Sums are conserved — about the source as it is now:** with the sum as reduction and no weights, the values `BlockReduce.filter` (as
+    regenerated from the source) returns for a data component add up to the total of that component, whatever the block layout. -/
+theorem src_block_reduce_sum_conserved (centre drop : Bool) (blocks : List (Rat × Rat)) (labels : List Nat) (coords : List (List Rat))
+    (comp : List Rat) (hlen : comp.length = labels.length) (outC : List (List Rat)) (outD : List (List Rat))
+    (h : Gen.blockReduceFilter ⟨some .sum, centre, drop⟩ blocks labels coords [comp] none = .ok (outC, outD)) :
+    (outD.getD 0 []).sum = comp.sum := by
+  unfold Gen.blockReduceFilter at h
+  simp only [bind, Except.bind, pure, Except.pure, List.map_cons, List.map_nil, Except.ok.injEq, Prod.mk.injEq] at h
+  obtain ⟨_, rfl⟩ := h
+  simp only [List.getD_cons_zero, groupAgg, ReduceSpec.fn]
+  exact sum_conserved blocks.length labels comp hlen
+
 end Verde.C09
